@@ -2254,6 +2254,20 @@ class Mailbox:
             uids_to_delete,
         )
 
+        # The folder's .mh_sequences file must stop mentioning the messages we
+        # are about to remove *before* their files are gone: MH re-uses a
+        # freed message number for the next message added to the folder, and
+        # a message delivered while we are still busy here would inherit the
+        # removed message's sequences (flags).
+        #
+        if to_delete:
+            doomed = set(to_delete)
+            async with self.mh_sequences_lock:
+                seqs = self.get_sequences_from_folder()
+                for name in list(seqs.keys()):
+                    seqs[name] = set(seqs[name]) - doomed
+                self.set_sequences_in_folder(seqs)
+
         for msg_key in to_delete:
             # Remove the message from the folder.. and also remove it from our
             # uids to message index mapping. NOTE: To convert which to the IMAP
@@ -2278,6 +2292,11 @@ class Mailbox:
             del self.msg_keys[which]
             del self.uids[which]
             self.num_msgs -= 1
+            # (Before we await: lookups by uid or message key that do not go
+            # through the command queue - POP3 - must not see indexes from
+            # before the lists shrank.)
+            #
+            self._rebuild_index_dicts()
             await self.mailbox.aremove(msg_key)
             expunge_msg = f"* {which + 1} EXPUNGE\r\n"
             await self._dispatch_or_pend_notifications(expunge_msg)
